@@ -124,3 +124,10 @@ def restriction(vc):
 # discharged again here
 from . import c16 as _C16
 contract('C06', 'cadence_injection_restores_every_time_axis', functions=['setigen.cadence:Cadence.add_signal'])(_C16.cadence_add_signal)
+
+
+# "injection changes the frame's data ... and nothing else": a frame built from an existing array (data=, from_data, get_slice) owns a *copy* of
+# it, so an injection cannot reach the caller's array, the parent frame or a sibling frame - C05's constructor contracts, discharged again here
+from . import c05 as _C5
+contract('C06', 'frames_built_from_an_array_own_a_copy', functions=[FRAME + '.__init__'])(_C5.frame_init)
+contract('C06', 'from_data_frames_own_a_copy', functions=[FRAME + '.from_data'])(_C5.from_data)
